@@ -5,3 +5,4 @@ from .. import ecdsa
 def run(ctx):
     ecdsa.model_check(ctx, ["RecInv"])
     ecdsa.toy_tables(ctx, what=("recover",))
+    ecdsa.recover_big(ctx)
